@@ -90,6 +90,9 @@ CLAIMED = {
                  "LpProblem.solve is replaced by a capture of the built model. For every 0/1 point z3 decides, for all parameter values, model-feasible <=> the method's hard rules, and objective == the method's own "
                  "distribution_cost of the decoded placement. One listed finding (oilp_cgdp objective with pinned computations).",
             "Model == specification only: the LP solver itself (GLPK, not installed) is trusted and never run. Bounded: <= 3 computations x 2 agents (3 in thorough), unit message load, real parameters in [0, 2^20].", "4/C24", S),
+    "C26": ("S", "create_*_constraint called with symbolic footprints, remaining capacity, hosting and communication costs and every binary assignment of the repair variables; z3 decides equality with the "
+                 "defining sums / '0 iff' rules. removal._removal_* run on every real Discovery state in the bound (hosting, replica sets, departed subsets) and compared with the repair rules.",
+            "Bounded: <= 3 (4) repair variables per constraint; chain of 3 computations on 3 agents (triangle on 4 in thorough), replica sets <= 2, departed subsets <= 2.", "4/C26", S),
     "C28": ("S", "For every shipped algorithm module the declared algo_params are read at run time and prepare_algo_params / AlgorithmDef.build_with_default_param / build_algo_def are executed on "
                  "every combination (in the bound) of given parameters and value kinds; the expected result is computed from the AlgoParameterDef tuples. The engine enumerates the space exhaustively.",
             "Discrete exploration with representative value pools per declared type (no symbolic strings: CrossHair was planned, Engine S's bounded choices are used instead, see DESIGN); <= 2 parameters given at once.", "4/C28", S),
